@@ -154,14 +154,17 @@ def r2(cx):
     dom(cx, b, val, ext, "fragment type validated before payload is accepted")
     # crc equality controls the append
     n = 0
-    for cmp_ in comparisons(b):
-        lo, ro = origin_of_operand(b, cmp_.lhs), origin_of_operand(b, cmp_.rhs)
-        if lo.from_call("wal::calculate_crc32") != ro.from_call("wal::calculate_crc32") and (lo.from_call("wal::reader::Reader::parse_header") or ro.from_call("wal::reader::Reader::parse_header")):
-            n += 1
-            for c in ext:
+    for c in ext:
+        conds = []
+        for cmp_ in comparisons(b):
+            lo, ro = origin_of_operand(b, cmp_.lhs), origin_of_operand(b, cmp_.rhs)
+            if lo.from_call("wal::calculate_crc32") != ro.from_call("wal::calculate_crc32") and (lo.from_call("wal::reader::Reader::parse_header") or ro.from_call("wal::reader::Reader::parse_header")):
                 cond = cmp_.condition_to_reach(c.bb)
-                cx.check(cond == frozenset({"eq"}), "payload is accepted only when computed CRC == stored CRC", "crc-gate", cmp_.where(),
-                         "payload bytes are accepted when computed CRC %s stored CRC" % (rel_str(cond) if cond is not None else "<unconstrained>"))
+                if cond is not None:
+                    conds.append((cmp_, cond))
+        n += len(conds)
+        cx.check(bool(conds) and all(cd == frozenset({"eq"}) for _, cd in conds), "payload is accepted only when computed CRC == stored CRC", "crc-gate", c.where(),
+                 "payload bytes are accepted when computed CRC %s stored CRC" % ([rel_str(cd) for _, cd in conds] or "<unconstrained>"))
     cx.floor("CRC comparisons", n, 1)
     # length bounded by the bytes remaining before slicing
     m = 0
@@ -184,6 +187,7 @@ def r2(cx):
                      "the reader slices `length` bytes when length %s remaining: a damaged length field indexes past the buffer (panic)" % rel_str(cond))
     cx.floor("length-vs-remaining comparisons controlling the payload", m, 1)
     rule_eof_only_at_block_boundary(cx)
+    rule_every_record_crc_checked(cx)
     # result of validate_record_type and from_u8 are propagated
     from ..core import result_fate
     for c in val + sites(cx, b, "wal::RecordType::from_u8"):
